@@ -32,6 +32,7 @@ def handExt (sin cos asin : F64 → F64) (atan2 : F64 → F64 → F64) : Ext whe
   PreciseVectorFromVector := PV.ofV3
   PV_Cross := PV.cross
   PV_Vector := fun v => v.toVector 0
+  PV_IsZero := PV.isZero
   sin := sin
   cos := cos
   asin := asin
@@ -174,6 +175,8 @@ theorem tie_src_PreciseVector_Cross : PreciseVector_Cross_src =
     "func (v PreciseVector) Cross(ov PreciseVector) PreciseVector { return PreciseVector{ X: precSub(precMul(v.Y, ov.Z), precMul(v.Z, ov.Y)), Y: precSub(precMul(v.Z, ov.X), precMul(v.X, ov.Z)), Z: precSub(precMul(v.X, ov.Y), precMul(v.Y, ov.X)), } }" := rfl
 theorem tie_src_PreciseVector_Vector : PreciseVector_Vector_src =
     "func (v PreciseVector) Vector() Vector { exp, nonZero := 0, false for _, c := range []*big.Float{v.X, v.Y, v.Z} { if c.Sign() != 0 && !c.IsInf() { if e := c.MantExp(nil); !nonZero || e > exp { exp, nonZero = e, true } } } x, _ := new(big.Float).SetMantExp(v.X, -exp).Float64() y, _ := new(big.Float).SetMantExp(v.Y, -exp).Float64() z, _ := new(big.Float).SetMantExp(v.Z, -exp).Float64() return Vector{x, y, z}.Normalize() }" := rfl
+theorem tie_src_PreciseVector_IsZero : PreciseVector_IsZero_src =
+    "func (v PreciseVector) IsZero() bool { return v.X.Sign() == 0 && v.Y.Sign() == 0 && v.Z.Sign() == 0 }" := rfl
 
 end
 end S2Proofs.Ties.C16_EdgeNum
